@@ -200,6 +200,14 @@ class SR:
         e = _frac(e)
         if e is None:
             return NotImplemented
+        if e != 1 and engine() is not None:
+            for (ee, base, patom) in engine()._pow_hooks:
+                if ee != e:
+                    ratio = _const_ratio(self, base)
+                    if ratio is not None:
+                        # base**e would be related to the atom standing for base**ee only through base itself,
+                        # which the registered-power model leaves unconstrained
+                        raise Inconclusive('power %s of a quantity whose power %s is a registered atom' % (e, ee))
         if e.denominator == 1:
             n = int(e)
             if n < 0:
@@ -483,6 +491,7 @@ class Engine:
         self._ufs = {}
         self._sqrt_of = {}  # poly key -> SR root
         self._pow_hooks = []  # (exponent, base SR, atom SR)
+        self.split_const_sqrt = False  # sqrt(c*a^2) = sqrt(c)*|a| with sqrt(c) an algebraic constant (opt-in)
         self.inputs = []  # (name, atom_id)
         self.stack = []
         self.choice_prefix = []
@@ -653,6 +662,12 @@ class Engine:
                     if root >= 0:
                         return root
                     return -root
+                if self.split_const_sqrt:
+                    # c not a square: sqrt(c) = rational * sqrt(square-free k), one algebraic constant atom per k
+                    root = SR({tuple((a, k // 2) for a, k in m): Fraction(1)})
+                    if root >= 0:
+                        return root * self.const_pow(c, Fraction(1, 2))
+                    return -root * self.const_pow(c, Fraction(1, 2))
         key = ('sqrt', x.key())
         a = self.atom(key, lambda: self._mk_sqrt_z3(x))
         return SR({((a, 1), ): Fraction(1)})
